@@ -119,9 +119,16 @@ Definition convert_attr (s : vfs) (nodeid idx : N) (a : attr) : outcome attr :=
   | _, _ => Panic
   end.
 
+(* Vfs::id_remap_with_nodeid: nodeid 1 stands for the mount at "/" when there is one, whose index then selects
+   the mapping; every other nodeid selects by its own index bits *)
+Definition ctx_idx (s : vfs) (hdr : N) : N :=
+  if (fs_idx hdr =? 0) && (ino_of hdr =? ROOT_ID)
+  then match aget ROOT_ID (v_mps s) with Some mnt => mp_idx mnt | None => fs_idx hdr end
+  else fs_idx hdr.
+
 (* server: Server::remap_ctx_ids -> Vfs::id_remap_with_nodeid -> remap_ctx_ids *)
 Definition srv_remap_ctx (s : vfs) (hdr : N) (c : ctx) : outcome ctx :=
-  match to_int (effective_mapping s (fs_idx hdr)) (c_uid c), to_int (effective_mapping s (fs_idx hdr)) (c_gid c) with
+  match to_int (effective_mapping s (ctx_idx s hdr)) (c_uid c), to_int (effective_mapping s (ctx_idx s hdr)) (c_gid c) with
   | Some u, Some g => Ok (mkC u g)
   | _, _ => Panic
   end.
@@ -194,10 +201,11 @@ Definition vfs_mount (s : vfs) (bid : N) (p : path) (map : option mapping) (a : 
       match allocate_fs_idx s with
       | (AOk idx, nx) =>
         let s1 := with_next s nx in
-        let s2 := match map with Some m => with_maps s1 (aset idx m (v_maps s1)) | None => s1 end in
+        (* mappings[index] = id_mapping, always: a previous occupant's entry never survives *)
+        let s2 := with_maps s1 (match map with Some m => aset idx m (v_maps s1) | None => adel idx (v_maps s1) end) in
         match insert_mount s2 bid (root_entry_of a) idx p with
         | (s3, Ok _) => (s3, VOk idx, evi)
-        | (s3, Err x) => (s3, VErr (VMount x), evi)
+        | (s3, Err x) => (with_maps s3 (adel idx (v_maps s3)), VErr (VMount x), evi)   (* cleared again on failure *)
         | (s3, Panic) => (s3, VPanic, evi)
         end
       | (_, nx) => (with_next s nx, VErr VFsIndex, evi)
@@ -329,7 +337,7 @@ Definition default_of (m : N) : outcome reply :=
 Definition lookup_pseudo (s : vfs) (nodeid : N) (nm : name) : outcome entry :=
   bind (ps_lookup (v_ps s) (ino_of nodeid) nm) (fun ino =>
     match aget ino (v_mps s) with
-    | Some mnt => convert_entry s (mp_idx mnt) (mp_ino mnt) (mp_entry mnt)
+    | Some mnt => Ok (mp_entry mnt)                      (* converted once, when the mount was inserted *)
     | None => convert_entry s (fs_idx nodeid) ino (pseudo_entry ino)
     end).
 
@@ -366,7 +374,12 @@ Definition readdir_pseudo (s : vfs) (plus : bool) (nodeid : N) (size offset : N)
                       Ok (mkD di nm off, if plus then Some (mkE (e_ino e) (e_ino e) (e_uid e) (e_gid e) (e_tag e)) else None))
                   | None =>
                     bind (convert_inode (fs_idx nodeid) ino) (fun di =>
-                      Ok (mkD di nm off, if plus then Some (mkE di di 0 0 0) else None))
+                      if plus then
+                        match to_ext (effective_mapping s (fs_idx nodeid)) 0 with     (* remap_attr_id on 0:0 *)
+                        | Some u => Ok (mkD di nm off, Some (mkE di di u u 0))
+                        | None => Panic
+                        end
+                      else Ok (mkD di nm off, None))
                   end) limit cands) (fun l => Ok (RDir l))).
 
 Fixpoint number_dir (next : N) (l : list (N * N * entry)) : list (N * N * entry * N) :=
@@ -420,7 +433,9 @@ Definition vfs_op (s : vfs) (c : ctx) (o : op) (a : ans) : outcome reply * list 
     else let '(p2, e2) := forget_one s c i2 in if p2 then (Panic, e1 ++ e2) else (Ok (RUnit 0), e1 ++ e2)
   | OGetattr ino =>
     match get_real_rootfs s ino with
-    | Ok (SLeft id) => (bind (ps_getattr (v_ps s) (ino_of id)) (fun i => Ok (RAttr (pseudo_attr i))), [])
+    | Ok (SLeft id) =>
+      (bind (ps_getattr (v_ps s) (ino_of id)) (fun i =>
+         bind (convert_attr s id (fs_idx id) (pseudo_attr i)) (fun x => Ok (RAttr x))), [])
     | Ok (SRight b idx id) =>
       (if n_err a =? 0 then bind (convert_attr s id idx (n_attr a)) (fun x => Ok (RAttr x)) else Err (err_of (n_err a)),
        [evc b m_getattr (ino_of id) 0 c])
